@@ -34,7 +34,7 @@ SxPlainIdents == {"n", "s", "a", "b", "c", "owner", "tags", "rec", "missing", "_
                   "principal", "action", "resource", "context", "permit", "forbid", "when", "unless"}
 \* all record keys of the generator pools in ascending byte order (the order of the AST's map)
 SxKeyOrder == <<"", "0a", "__cedar", "_x", "a", "a b", "a\"b", "a\\b", "b", "c", "has", "if", "in", "is",
-                "like", "n", "owner", "permit", "principal", "s", "then", "true", "when">>
+                "like", "n", "naïve", "owner", "permit", "principal", "s", "then", "true", "when", "x٣", "é">>
 SxSortKeys(K) == SelectSeq(SxKeyOrder, LAMBDA k : k \in K)
 
 \* extension functions that must be called in method style; all others in function style
